@@ -112,7 +112,7 @@ def cursor_locals(fn):
         if c[0] == "bin" and c[1] in ("Ge", "Lt", "Gt", "Le"):
             sides = [strip(c[2]), strip(c[3])]
             for a, o in ((sides[0], sides[1]), (sides[1], sides[0])):
-                if a[0] == "mu" and mir.is_call(o, "len") and wl_row(o[2][0], fn):
+                if a[0] == "mu" and any(mir.is_call(x, "len") and wl_row(x[2][0], fn) for x in mir.subterms(o)):
                     res.add(a[2])
     _CUR[id(fn)] = res
     return res
@@ -170,8 +170,8 @@ def run(prog):
                             "%s takes a %s" % (what, d) if ok else
                             "%s expects a %s but is given a %s (%s): the two coincide only when a clause's index equals its "
                             "position in the scanned watch list" % (what, NAMES[want], NAMES[d], show(arg)[:70])))
-    if n < 24:
-        raise CheckerError("WS: only %d watch-list uses classified (expected >= 24)" % n)
+    if n < 18:
+        raise CheckerError("WS: only %d watch-list uses classified (expected >= 18)" % n)
     return out
 
 
